@@ -1,15 +1,716 @@
 package main
 
-import "golang.org/x/tools/go/ssa"
+import (
+	"fmt"
+	"go/ast"
+	"go/constant"
+	"go/token"
+	"go/types"
+	"sort"
+	"strings"
+
+	"golang.org/x/tools/go/ssa"
+)
 
 func init() {
 	props["C15"] = propC15
-	propExplain["C15"] = "TODO"
 }
 
 func libFuncs(c *Ctx) []*ssa.Function { return c.L.RepoFuncs(isLibPkg) }
 
+// eqInfo summarises the cell Equal_T(R).
+type eqInfo struct {
+	canTrue   bool
+	domains   []string // types in which the deciding comparisons are made
+	undecided []string
+	pos       token.Pos
+}
+
+func cellCanBeTrue(c leafCell) bool {
+	switch c.Kind {
+	case "dyn":
+		return true
+	case "ret":
+		if len(c.Results) == 0 {
+			return false
+		}
+		if tv, ok := c.Pkg.TypesInfo.Types[c.Results[0]]; ok && tv.Value != nil && tv.Value.Kind() == constant.Bool {
+			return constant.BoolVal(tv.Value)
+		}
+		return c.Truth != 0
+	}
+	return false
+}
+
+// cmpDomains: the operand types of the ==/!=/< ... comparisons in x, constants
+// taking the type of the other operand; bool-typed comparisons are skipped.
+func cmpDomains(info *types.Info, x ast.Expr, ops map[token.Token]bool) []string {
+	set := map[string]bool{}
+	ast.Inspect(x, func(n ast.Node) bool {
+		be, ok := n.(*ast.BinaryExpr)
+		if !ok || !ops[be.Op] {
+			return true
+		}
+		for _, side := range []ast.Expr{be.X, be.Y} {
+			tv, ok := info.Types[side]
+			if !ok || tv.Value != nil {
+				continue
+			}
+			t := tv.Type
+			if b, ok := t.Underlying().(*types.Basic); ok && b.Info()&types.IsBoolean != 0 {
+				continue
+			}
+			set[tstr(t)] = true
+		}
+		return true
+	})
+	var out []string
+	for k := range set {
+		out = append(out, k)
+	}
+	sort.Strings(out)
+	return out
+}
+
+var eqOps = map[token.Token]bool{token.EQL: true, token.NEQ: true}
+
 func propC15(c *Ctx) {
+	tb := newTabber(c.L)
+	otypes := objectTypes(c.L, modPath)
+	c.extra["object_types"] = len(otypes)
+	var names []string
+	for _, t := range otypes {
+		names = append(names, tstr(t))
+	}
+	c.extra["object_type_names"] = names
+
+	// ---- Equal table ---------------------------------------------------------
+	rs := c.Rule("eq-sym", "Equal is symmetric on types: T accepts R (some path of T.Equal can return true for a right operand of dynamic type R) iff R accepts T, and both directions compare in the same domain (the operand type of the deciding == comparisons); extracted by partial evaluation of every Equal method with delegations followed", 100)
+	if c.Anchor(rs, "Object implementations in package ugo (fewer than 15 found)", len(otypes) >= 15) {
+		eq := map[string]eqInfo{}
+		for _, T := range otypes {
+			for _, R := range otypes {
+				var inf eqInfo
+				for _, lc := range tb.resolve("Equal", T, R, nil) {
+					if lc.Kind == "undecided" {
+						inf.undecided = append(inf.undecided, lc.Why)
+						if inf.pos == 0 {
+							inf.pos = lc.Pos
+						}
+						continue
+					}
+					if cellCanBeTrue(lc) {
+						inf.canTrue = true
+						if inf.pos == 0 {
+							inf.pos = lc.Pos
+						}
+						if lc.Kind == "dyn" {
+							inf.domains = append(inf.domains, "elementwise")
+						} else {
+							inf.domains = append(inf.domains, cmpDomains(lc.Pkg.TypesInfo, lc.Results[0], eqOps)...)
+						}
+					}
+				}
+				sort.Strings(inf.domains)
+				inf.domains = uniq(inf.domains)
+				eq[tstr(T)+"|"+tstr(R)] = inf
+			}
+		}
+		for i, T := range otypes {
+			for j, R := range otypes {
+				a, b := eq[tstr(T)+"|"+tstr(R)], eq[tstr(R)+"|"+tstr(T)]
+				key := tstr(T) + "," + tstr(R)
+				if len(a.undecided) > 0 {
+					c.Und(rs, key, c.L.Pos(a.pos), "Equal cell not modelled: "+strings.Join(a.undecided, "; "))
+					continue
+				}
+				if j < i {
+					continue
+				}
+				pos := c.L.Pos(a.pos)
+				if a.pos == 0 {
+					pos = c.L.Pos(b.pos)
+				}
+				switch {
+				case a.canTrue != b.canTrue:
+					acc, rej := T, R
+					if b.canTrue {
+						acc, rej = R, T
+					}
+					c.Bad(rs, key, pos, fmt.Sprintf("%s.Equal can return true for a %s operand but %s.Equal never does: a == b differs from b == a", tstr(acc), tstr(rej), tstr(rej)))
+				case a.canTrue && strings.Join(a.domains, ",") != strings.Join(b.domains, ","):
+					c.Bad(rs, key, pos, fmt.Sprintf("%s.Equal(%s) compares in %v but %s.Equal(%s) compares in %v: values the two conversions map differently make a == b differ from b == a", tstr(T), tstr(R), a.domains, tstr(R), tstr(T), b.domains))
+				default:
+					d := "both reject"
+					if a.canTrue {
+						d = "both accept, domain " + strings.Join(a.domains, ",")
+					}
+					c.Ok(rs, key, pos, d)
+				}
+			}
+		}
+	}
+
+	propC15BinaryOp(c, tb, otypes)
+	propC15NeqNeg(c)
+
 	ag := c.Rule("arith-guard", "every integer / and % is dominated by a non-zero test of the divisor, every shift by a signed count by a non-negative test (Go panics otherwise; the property demands ZeroDivisionError/TypeError instead of a Go panic)", 10)
 	ruleArithGuard(c, ag, c.L.RepoFuncs(func(pp string) bool { return pp == modPath }))
+}
+
+func uniq(s []string) []string {
+	var out []string
+	for i, x := range s {
+		if i == 0 || x != s[i-1] {
+			out = append(out, x)
+		}
+	}
+	return out
+}
+
+// ---- BinaryOp table ----------------------------------------------------------
+
+var relTokens = []string{"Less", "LessEq", "Greater", "GreaterEq"}
+var relGoOp = map[string]token.Token{"Less": token.LSS, "LessEq": token.LEQ, "Greater": token.GTR, "GreaterEq": token.GEQ}
+var converseTok = map[string]string{"Less": "Greater", "LessEq": "GreaterEq", "Greater": "Less", "GreaterEq": "LessEq"}
+var arithGoOp = map[string]token.Token{"Add": token.ADD, "Sub": token.SUB, "Mul": token.MUL, "Quo": token.QUO, "Rem": token.REM,
+	"And": token.AND, "Or": token.OR, "Xor": token.XOR, "AndNot": token.AND_NOT, "Shl": token.SHL, "Shr": token.SHR}
+var relOps = map[token.Token]bool{token.LSS: true, token.LEQ: true, token.GTR: true, token.GEQ: true}
+
+// boCell summarises the cell BinaryOp_T(tok, R).
+type boCell struct {
+	defined   bool // some path returns a value
+	undecided []string
+	consts    []string // constant results (True / False) when every value path returns one
+	allConst  bool
+	domains   []string
+	ops       []string // Go operators applied to (L-derived, R-derived) operands, normalised to L-on-the-left
+	cmpConsts []string // for three-way compare shapes: the outcomes accepted
+	dynamic   bool     // delegates to the operand's run-time type: not decidable here
+	pos       token.Pos
+	rets      int
+}
+
+func stripConv(info *types.Info, x ast.Expr) ast.Expr {
+	for {
+		x = ast.Unparen(x)
+		call, ok := x.(*ast.CallExpr)
+		if !ok || len(call.Args) != 1 {
+			return x
+		}
+		if tv, ok := info.Types[call.Fun]; ok && tv.IsType() {
+			x = call.Args[0]
+			continue
+		}
+		return x
+	}
+}
+
+// sideOf classifies an operand expression: "L" if it mentions only the
+// receiver (or values derived from it), "R" for the right operand, "LR", or "".
+func sideOf(info *types.Info, x ast.Expr, st *tabState) string {
+	l, r := false, false
+	ast.Inspect(x, func(n ast.Node) bool {
+		if id, ok := n.(*ast.Ident); ok {
+			if o := info.Uses[id]; o != nil {
+				switch st.role[o] {
+				case "L", "L~":
+					l = true
+				case "R", "R~":
+					r = true
+				case "LR~":
+					l, r = true, true
+				}
+			}
+		}
+		return true
+	})
+	switch {
+	case l && r:
+		return "LR"
+	case l:
+		return "L"
+	case r:
+		return "R"
+	}
+	return ""
+}
+
+func flipGo(op token.Token) token.Token {
+	switch op {
+	case token.LSS:
+		return token.GTR
+	case token.GTR:
+		return token.LSS
+	case token.LEQ:
+		return token.GEQ
+	case token.GEQ:
+		return token.LEQ
+	}
+	return op
+}
+
+func summariseBO(tb *tabber, T, R types.Type, tok int64) boCell {
+	var bc boCell
+	bc.allConst = true
+	for _, lc := range tb.resolve("BinaryOp", T, R, &tok) {
+		switch lc.Kind {
+		case "undecided":
+			bc.undecided = append(bc.undecided, lc.Why)
+			if bc.pos == 0 {
+				bc.pos = lc.Pos
+			}
+		case "dyn":
+			bc.defined = true
+			bc.allConst = false
+			bc.dynamic = true
+		case "ret":
+			bc.defined = true
+			bc.rets++
+			if bc.pos == 0 {
+				bc.pos = lc.Pos
+			}
+			info := lc.Pkg.TypesInfo
+			res := lc.Results[0]
+			inner := stripConv(info, res)
+			if id, ok := inner.(*ast.Ident); ok && (id.Name == "True" || id.Name == "False") {
+				if o := info.Uses[id]; o != nil && o.Pkg() != nil && o.Pkg().Path() == modPath && o.Parent() == o.Pkg().Scope() {
+					bc.consts = append(bc.consts, id.Name)
+					continue
+				}
+			}
+			bc.allConst = false
+			bc.domains = append(bc.domains, cmpDomains(info, res, relOps)...)
+			ast.Inspect(res, func(n ast.Node) bool {
+				be, ok := n.(*ast.BinaryExpr)
+				if !ok {
+					return true
+				}
+				sx, sy := sideOf(info, be.X, lc.St), sideOf(info, be.Y, lc.St)
+				switch {
+				case sx == "L" && sy == "R":
+					bc.ops = append(bc.ops, be.Op.String())
+				case sx == "R" && sy == "L":
+					bc.ops = append(bc.ops, "flipped:"+flipGo(be.Op).String())
+				case (sx == "LR" && sy == "") || (sx == "" && sy == "LR"):
+					// three-way compare result against a constant
+					k := be.Y
+					if sx == "" {
+						k = be.X
+					}
+					if tv, ok := info.Types[k]; ok && tv.Value != nil && be.Op == token.EQL {
+						bc.cmpConsts = append(bc.cmpConsts, tv.Value.ExactString())
+					}
+				}
+				return true
+			})
+		}
+	}
+	sort.Strings(bc.domains)
+	bc.domains = uniq(bc.domains)
+	sort.Strings(bc.consts)
+	bc.consts = uniq(bc.consts)
+	sort.Strings(bc.ops)
+	bc.ops = uniq(bc.ops)
+	sort.Strings(bc.cmpConsts)
+	bc.cmpConsts = uniq(bc.cmpConsts)
+	return bc
+}
+
+func propC15BinaryOp(c *Ctx, tb *tabber, otypes []types.Type) {
+	rq := c.Rule("rel-quad", "for every ordered pair of built-in types the four relational operators are defined together or not at all, each applies the Go operator of its token to (left, right) in that order (three-way compare shapes: the matching outcomes), all four compare in one domain, and that domain is the one Equal uses for the pair (otherwise trichotomy / a<=b == (a<b || a==b) fail for values the conversions map differently)", 200)
+	rc := c.Rule("rel-converse", "a<b and b>a (a<=b and b>=a) agree: when both cells return constants they return the same constant (comparisons with undefined), when both compare values they compare in the same domain", 50)
+	ro := c.Rule("op-token", "every arithmetic, bitwise and shift cell applies the Go operator that corresponds to its token to (left, right) in that order", 50)
+	toks := tokenConsts(c.L)
+	for _, n := range append(append([]string{}, relTokens...), "Add", "Sub", "Mul", "Quo", "Rem", "And", "Or", "Xor", "AndNot", "Shl", "Shr") {
+		if _, ok := toks[n]; !c.Anchor(rq, "token."+n, ok) {
+			return
+		}
+	}
+	if len(otypes) < 15 {
+		return
+	}
+	cell := map[string]boCell{}
+	get := func(T, R types.Type, tn string) boCell {
+		k := tstr(T) + "|" + tstr(R) + "|" + tn
+		if v, ok := cell[k]; ok {
+			return v
+		}
+		v := summariseBO(tb, T, R, toks[tn])
+		cell[k] = v
+		return v
+	}
+	eqDomain := func(T, R types.Type) []string {
+		var d []string
+		for _, lc := range tb.resolve("Equal", T, R, nil) {
+			if cellCanBeTrue(lc) && lc.Kind == "ret" {
+				d = append(d, cmpDomains(lc.Pkg.TypesInfo, lc.Results[0], eqOps)...)
+			}
+		}
+		sort.Strings(d)
+		return uniq(d)
+	}
+	nCells := 0
+	for _, T := range otypes {
+		for _, R := range otypes {
+			pair := tstr(T) + "," + tstr(R)
+			// ---- relational quadruple
+			var probs []string
+			var und []string
+			defined := 0
+			var doms [][]string
+			var pos token.Pos
+			dyn := false
+			for _, tn := range relTokens {
+				bc := get(T, R, tn)
+				nCells++
+				if pos == 0 {
+					pos = bc.pos
+				}
+				if len(bc.undecided) > 0 {
+					und = append(und, tn+": "+strings.Join(bc.undecided, "; "))
+					continue
+				}
+				if !bc.defined {
+					continue
+				}
+				defined++
+				if bc.dynamic {
+					dyn = true
+				}
+				want := relGoOp[tn].String()
+				for _, op := range bc.ops {
+					o := strings.TrimPrefix(op, "flipped:")
+					if tok2go[o] && o != want {
+						probs = append(probs, fmt.Sprintf("token %s applies Go operator %s to (left,right)", tn, o))
+					}
+				}
+				if len(bc.cmpConsts) > 0 {
+					wantC := map[string]string{"Less": "-1", "LessEq": "-1,0", "Greater": "1", "GreaterEq": "0,1"}[tn]
+					if got := strings.Join(bc.cmpConsts, ","); got != wantC {
+						probs = append(probs, fmt.Sprintf("token %s accepts three-way compare outcomes {%s}, want {%s}", tn, got, wantC))
+					}
+				}
+				if len(bc.domains) > 0 {
+					doms = append(doms, bc.domains)
+				}
+			}
+			if len(und) > 0 {
+				c.Und(rq, pair, c.L.Pos(pos), "BinaryOp cell not modelled: "+strings.Join(und, " | "))
+			} else {
+				if defined != 0 && defined != 4 {
+					probs = append(probs, fmt.Sprintf("only %d of the four relational operators are defined", defined))
+				}
+				for i := 1; i < len(doms); i++ {
+					if strings.Join(doms[i], ",") != strings.Join(doms[0], ",") {
+						probs = append(probs, fmt.Sprintf("relational operators compare in different domains %v vs %v", doms[0], doms[i]))
+						break
+					}
+				}
+				if len(doms) > 0 && !dyn {
+					if ed := eqDomain(T, R); len(ed) > 0 && strings.Join(ed, ",") != strings.Join(doms[0], ",") {
+						probs = append(probs, fmt.Sprintf("relational operators compare in %v but == compares in %v", doms[0], ed))
+					}
+				}
+				det := "not defined"
+				if defined == 4 {
+					det = "all four defined"
+					if len(doms) > 0 {
+						det += ", domain " + strings.Join(doms[0], ",")
+					}
+				}
+				c.Check(rq, pair, c.L.Pos(pos), len(probs) == 0, det, strings.Join(probs, "; "))
+			}
+			// ---- converse cells
+			for _, tn := range []string{"Less", "LessEq"} {
+				a, b := get(T, R, tn), get(R, T, converseTok[tn])
+				if len(a.undecided)+len(b.undecided) > 0 || !a.defined || !b.defined || a.dynamic || b.dynamic {
+					continue
+				}
+				key := fmt.Sprintf("%s %s %s", tstr(T), tn, tstr(R))
+				p := c.L.Pos(a.pos)
+				switch {
+				case a.allConst && b.allConst:
+					c.Check(rc, key, p, strings.Join(a.consts, ",") == strings.Join(b.consts, ","),
+						"both constant "+strings.Join(a.consts, ","),
+						fmt.Sprintf("%s %s %s returns %v but the converse %s %s %s returns %v", tstr(T), tn, tstr(R), a.consts, tstr(R), converseTok[tn], tstr(T), b.consts))
+				case !a.allConst && !b.allConst && len(a.domains) > 0 && len(b.domains) > 0:
+					c.Check(rc, key, p, strings.Join(a.domains, ",") == strings.Join(b.domains, ","),
+						"same domain "+strings.Join(a.domains, ","),
+						fmt.Sprintf("%s %s %s compares in %v but the converse compares in %v", tstr(T), tn, tstr(R), a.domains, b.domains))
+				case a.allConst != b.allConst:
+					c.Bad(rc, key, p, fmt.Sprintf("%s %s %s and its converse disagree in kind: one returns a constant, the other compares values", tstr(T), tn, tstr(R)))
+				}
+			}
+			// ---- arithmetic operators
+			for tn, gop := range arithGoOp {
+				bc := get(T, R, tn)
+				nCells++
+				key := fmt.Sprintf("%s %s %s", tstr(T), tn, tstr(R))
+				if len(bc.undecided) > 0 {
+					c.Und(ro, key, c.L.Pos(bc.pos), "BinaryOp cell not modelled: "+strings.Join(bc.undecided, "; "))
+					continue
+				}
+				if !bc.defined || len(bc.ops) == 0 {
+					continue
+				}
+				var bad []string
+				for _, op := range bc.ops {
+					if strings.HasPrefix(op, "flipped:") {
+						if !commutative[gop] || strings.TrimPrefix(op, "flipped:") != gop.String() {
+							bad = append(bad, "operands swapped: "+op)
+						}
+						continue
+					}
+					if tok2go[op] || arithOps[op] {
+						if op != gop.String() {
+							bad = append(bad, "applies "+op)
+						}
+					}
+				}
+				c.Check(ro, key, c.L.Pos(bc.pos), len(bad) == 0, "applies "+gop.String(), fmt.Sprintf("token %s: %s (want %s on left, right)", tn, strings.Join(bad, ", "), gop))
+			}
+		}
+	}
+	c.extra["binaryop_cells_evaluated"] = nCells
+}
+
+var tok2go = map[string]bool{"<": true, "<=": true, ">": true, ">=": true}
+var arithOps = map[string]bool{"+": true, "-": true, "*": true, "/": true, "%": true, "&": true, "|": true, "^": true, "&^": true, "<<": true, ">>": true}
+var commutative = map[token.Token]bool{token.ADD: true, token.MUL: true, token.AND: true, token.OR: true, token.XOR: true}
+
+// ---- OpEqual / OpNotEqual --------------------------------------------------------
+
+// opcodeConsts: the constants used as keys of the OpcodeOperands table
+// (Opcode is an alias of byte, so opcodes cannot be recognised by type).
+func opcodeConsts(l *Loaded) map[types.Object]int64 {
+	out := map[types.Object]int64{}
+	p := l.ByPath[modPath]
+	if p == nil {
+		return out
+	}
+	for _, f := range p.Syntax {
+		for _, d := range f.Decls {
+			gd, ok := d.(*ast.GenDecl)
+			if !ok || gd.Tok != token.VAR {
+				continue
+			}
+			for _, sp := range gd.Specs {
+				vs := sp.(*ast.ValueSpec)
+				for i, n := range vs.Names {
+					if n.Name != "OpcodeOperands" || i >= len(vs.Values) {
+						continue
+					}
+					cl, ok := vs.Values[i].(*ast.CompositeLit)
+					if !ok {
+						continue
+					}
+					for _, el := range cl.Elts {
+						kv, ok := el.(*ast.KeyValueExpr)
+						if !ok {
+							continue
+						}
+						if id, ok := kv.Key.(*ast.Ident); ok {
+							if co, ok := p.TypesInfo.Uses[id].(*types.Const); ok {
+								if v, ok := constant.Int64Val(co.Val()); ok {
+									out[co] = v
+								}
+							}
+						}
+					}
+				}
+			}
+		}
+	}
+	return out
+}
+
+// vmLoopSwitch finds the function of package ugo whose body contains the
+// switch over opcode constants with the most arms (the dispatch loop).
+func vmLoopSwitch(l *Loaded) (*ast.FuncDecl, *ast.SwitchStmt) {
+	p := l.ByPath[modPath]
+	if p == nil {
+		return nil, nil
+	}
+	ops := opcodeConsts(l)
+	var bestFn *ast.FuncDecl
+	var best *ast.SwitchStmt
+	bestN := 0
+	for _, f := range p.Syntax {
+		for _, d := range f.Decls {
+			fd, ok := d.(*ast.FuncDecl)
+			if !ok || fd.Body == nil {
+				continue
+			}
+			ast.Inspect(fd.Body, func(n ast.Node) bool {
+				sw, ok := n.(*ast.SwitchStmt)
+				if !ok || sw.Tag == nil {
+					return true
+				}
+				// the dispatch switch reads its tag from the instruction stream
+				if _, isIdx := ast.Unparen(sw.Tag).(*ast.IndexExpr); !isIdx {
+					return true
+				}
+				cnt := 0
+				for _, cc := range sw.Body.List {
+					for _, x := range cc.(*ast.CaseClause).List {
+						if id, ok := ast.Unparen(x).(*ast.Ident); ok {
+							if _, isOp := ops[p.TypesInfo.Uses[id]]; isOp {
+								cnt++
+							}
+						}
+					}
+				}
+				if cnt > bestN {
+					bestN, best, bestFn = cnt, sw, fd
+				}
+				return true
+			})
+		}
+	}
+	if bestN < 30 {
+		return nil, nil
+	}
+	return bestFn, best
+}
+
+func opcodeValue(l *Loaded, name string) (int64, bool) {
+	p := l.ByPath[modPath]
+	if p == nil {
+		return 0, false
+	}
+	c, ok := p.Types.Scope().Lookup(name).(*types.Const)
+	if !ok {
+		return 0, false
+	}
+	return constant.Int64Val(c.Val())
+}
+
+func opcodeArm(l *Loaded, sw *ast.SwitchStmt, op int64) *ast.CaseClause {
+	p := l.ByPath[modPath]
+	for _, cc := range sw.Body.List {
+		cl := cc.(*ast.CaseClause)
+		for _, x := range cl.List {
+			if tv, ok := p.TypesInfo.Types[x]; ok && tv.Value != nil {
+				if v, ok := constant.Int64Val(tv.Value); ok && v == op {
+					return cl
+				}
+			}
+		}
+	}
+	return nil
+}
+
+func propC15NeqNeg(c *Ctx) {
+	r := c.Rule("neq-neg", "in the VM dispatch loop the != arm stores, in every arm of its type switch, the negation of exactly the Equal call that the == arm stores (same receiver, same argument, operands taken from the same stack slots)", 2)
+	_, sw := vmLoopSwitch(c.L)
+	if !c.Anchor(r, "VM dispatch switch over Opcode", sw != nil) {
+		return
+	}
+	p := c.L.ByPath[modPath]
+	info := p.TypesInfo
+	shapes := map[string][]string{}
+	for _, name := range []string{"OpEqual", "OpNotEqual"} {
+		v, ok := opcodeValue(c.L, name)
+		if !c.Anchor(r, "opcode "+name, ok) {
+			return
+		}
+		arm := opcodeArm(c.L, sw, v)
+		if !c.Anchor(r, "dispatch arm for "+name, arm != nil) {
+			return
+		}
+		// every Bool(...) conversion stored in the arm, printed with local names
+		// replaced by the shape of their defining expression
+		defs := map[types.Object]string{}
+		var out []string
+		var operandDefs []string
+		ast.Inspect(arm, func(n ast.Node) bool {
+			switch x := n.(type) {
+			case *ast.AssignStmt:
+				if x.Tok == token.DEFINE && len(x.Lhs) == len(x.Rhs) {
+					for i, lh := range x.Lhs {
+						if id, ok := lh.(*ast.Ident); ok {
+							if o := info.Defs[id]; o != nil {
+								defs[o] = exprShape(info, x.Rhs[i], nil)
+								operandDefs = append(operandDefs, defs[o])
+							}
+						}
+					}
+				}
+				for _, rh := range x.Rhs {
+					if call, ok := ast.Unparen(rh).(*ast.CallExpr); ok && len(call.Args) == 1 {
+						if tv, ok := info.Types[call.Fun]; ok && tv.IsType() && isNamed(tv.Type, modPath, "Bool") {
+							out = append(out, eqCallShape(info, call.Args[0], defs))
+						}
+					}
+				}
+			}
+			return true
+		})
+		sort.Strings(operandDefs)
+		shapes[name] = out
+		shapes[name+"/operands"] = operandDefs
+	}
+	eqs, nes := shapes["OpEqual"], shapes["OpNotEqual"]
+	pos := c.L.Pos(sw.Pos())
+	if len(eqs) == 0 || len(nes) == 0 {
+		c.Und(r, "OpEqual/OpNotEqual arms", pos, "no Bool(...) store found in the arms: shape not modelled")
+		return
+	}
+	okEq := true
+	for _, s := range eqs {
+		if s != "SW.Equal(right)" && s != "left.Equal(right)" {
+			okEq = false
+		}
+	}
+	c.Check(r, "OpEqual stores Equal", pos, okEq, fmt.Sprintf("%d arms store left.Equal(right)", len(eqs)), fmt.Sprintf("== arm stores %v, want left.Equal(right) in every arm", uniq(sortedCopy(eqs))))
+	okNe := len(nes) == len(eqs)
+	for _, s := range nes {
+		if s != "!SW.Equal(right)" && s != "!left.Equal(right)" {
+			okNe = false
+		}
+	}
+	c.Check(r, "OpNotEqual stores !Equal", pos, okNe && strings.Join(shapes["OpEqual/operands"], ";") == strings.Join(shapes["OpNotEqual/operands"], ";"),
+		fmt.Sprintf("%d arms store !left.Equal(right), operands %v", len(nes), shapes["OpNotEqual/operands"]),
+		fmt.Sprintf("!= arm stores %v with operands %v; == arm has %d arms with operands %v: a != b is not the negation of a == b for some operand type", uniq(sortedCopy(nes)), shapes["OpNotEqual/operands"], len(eqs), shapes["OpEqual/operands"]))
+}
+
+func sortedCopy(s []string) []string {
+	o := append([]string{}, s...)
+	sort.Strings(o)
+	return o
+}
+
+// eqCallShape prints x as "[!]recv.Equal(arg)" where recv is "SW" for a
+// type-switch-bound variable, or the variable's name for left/right.
+func eqCallShape(info *types.Info, x ast.Expr, defs map[types.Object]string) string {
+	x = ast.Unparen(x)
+	neg := ""
+	if u, ok := x.(*ast.UnaryExpr); ok && u.Op == token.NOT {
+		neg = "!"
+		x = ast.Unparen(u.X)
+	}
+	call, ok := x.(*ast.CallExpr)
+	if !ok || len(call.Args) != 1 {
+		return neg + "<" + exprShape(info, x, nil) + ">"
+	}
+	sel, ok := call.Fun.(*ast.SelectorExpr)
+	if !ok {
+		return neg + "<" + exprShape(info, x, nil) + ">"
+	}
+	recv := "?"
+	if id, ok := ast.Unparen(sel.X).(*ast.Ident); ok {
+		if o := info.Uses[id]; o != nil {
+			if _, isDef := defs[o]; isDef {
+				recv = "left"
+				if id.Name != "left" {
+					recv = id.Name
+				}
+			} else {
+				recv = "SW" // implicit type-switch object
+			}
+		}
+	}
+	arg := exprShape(info, call.Args[0], nil)
+	return neg + recv + "." + sel.Sel.Name + "(" + arg + ")"
 }
